@@ -139,6 +139,21 @@ def _is_fresh_expr(repo, e):
     return False
 
 
+def _is_deep_fresh_expr(repo, e):
+    """for a container whose elements are containers: a new EMPTY container (or a factory-initialised
+    defaultdict); shallow copies (x.copy(), dict(x), list(x)) share the inner containers and do not count"""
+    if isinstance(e, (ast.Dict, ast.List, ast.Set, ast.Tuple)):
+        return not (getattr(e, "elts", None) or getattr(e, "keys", None))
+    if isinstance(e, ast.Call):
+        f = e.func
+        name = f.id if isinstance(f, ast.Name) else (f.attr if isinstance(f, ast.Attribute) and not (f.attr == "copy") else None)
+        if name in ("dict", "list", "set", "OrderedDict") and not e.args and not e.keywords:
+            return True
+        if name == "defaultdict" and len(e.args) <= 1 and all(isinstance(x, ast.Name) and x.id in ("set", "list", "dict") for x in e.args):
+            return True
+    return False
+
+
 def stores_of(repo, fields, nested):
     """ownership discipline of container fields: (i) a store to the whole field `X._f = e` needs a fresh e;
     (ii) for fields whose elements are containers themselves (`nested`), an element store `X._f[k] = e` and the
@@ -167,7 +182,9 @@ def stores_of(repo, fields, nested):
                     f, d = base_field(t)
                     if f not in out:
                         continue
-                    if d == 0 and not _is_fresh_expr(repo, n.value):
+                    if d == 0 and f in nested and not _is_deep_fresh_expr(repo, n.value):
+                        out[f].append((q, n.lineno, "%s = %s" % (ast.unparse(t), ast.unparse(n.value))))
+                    elif d == 0 and not _is_fresh_expr(repo, n.value):
                         out[f].append((q, n.lineno, "%s = %s" % (ast.unparse(t), ast.unparse(n.value))))
                     elif d == 1 and f in nested and not _is_fresh_expr(repo, n.value):
                         out[f].append((q, n.lineno, "%s = %s" % (ast.unparse(t), ast.unparse(n.value))))
